@@ -16,5 +16,11 @@ if [ -n "$need" ]; then
     PYTHONPATH="$HERE/.deps" "$PY" -c "import hypothesis" || exit 1
   }
 fi
+# optional: atheris (coverage-guided part of the thorough tier); the checks
+# work without it and say so in their evidence
+if ! PYTHONPATH="$HERE/.deps" "$PY" -c "import atheris" >/dev/null 2>&1; then
+  /venv/bin/pip install --no-index --find-links "$WHEELS" --target "$HERE/.deps" atheris >/dev/null 2>&1 || \
+    echo "setup: atheris not installed (thorough tier runs without its coverage-guided part)" >&2
+fi
 mkdir -p "$HERE/.work" "$HERE/evidence" "$HERE/replay"
 PYTHONPATH="$HERE/.deps:${VERIF_REPO:-/repo}" "$PY" -W ignore -c "import hypothesis, numpy, scipy, pb_bss; print('setup ok: hypothesis', hypothesis.__version__, 'numpy', numpy.__version__)"
